@@ -1,1 +1,3 @@
 pub mod rast;
+pub mod pix;
+pub mod step;
